@@ -97,3 +97,44 @@ func verifDenWithout(d []verifPair, at, v int) []verifPair {
 	}
 	return out
 }
+
+// verifShow prints a value natively (replay debugging); a no-op symbolically.
+func verifShow(label string, v Value) {
+	if !verifSymbolic() {
+		verifPrint(label, v.String())
+	}
+}
+
+// verifDenDupIndex: two present pairs share an index but differ in value.
+func verifDenDupIndex(d []verifPair) bool {
+	r := false
+	for i, p := range d {
+		for _, q := range d[:i] {
+			r = verifOr(r, verifAnd(verifAnd(p.ok, q.ok), verifAnd(p.at == q.at, p.v != q.v)))
+		}
+	}
+	return r
+}
+
+// verifDenIndexOtherValue: index at is occupied by a value other than v.
+func verifDenIndexOtherValue(d []verifPair, at, v int) bool {
+	r := false
+	for _, p := range d {
+		r = verifOr(r, verifAnd(p.ok, verifAnd(p.at == at, p.v != v)))
+	}
+	return r
+}
+
+// verifDenSparse: some absent index lies strictly between two present ones.
+func verifDenSparse(d []verifPair) bool {
+	r := false
+	for _, a := range d {
+		for _, b := range d {
+			for _, c := range d {
+				between := verifAnd(a.at < c.at, c.at < b.at)
+				r = verifOr(r, verifAnd(verifAnd(a.ok, b.ok), verifAnd(verifNot(c.ok), between)))
+			}
+		}
+	}
+	return r
+}
